@@ -191,11 +191,12 @@ func (r mutationResolver) EditComment(ctx context.Context, input models.EditComm
 		return nil, err
 	}
 
-	op, err := b.EditCommentRaw(
+	op, err := b.EditCommentRawWithFiles(
 		author,
 		time.Now().Unix(),
 		target,
 		text.Cleanup(input.Message),
+		input.Files,
 		nil,
 	)
 	if err != nil {
